@@ -88,6 +88,13 @@ def printed_lines(kind, text):
     return out
 
 
+def quiet_parse(parser, text):
+    import contextlib
+    import io
+    with contextlib.redirect_stderr(io.StringIO()), contextlib.redirect_stdout(io.StringIO()):
+        return parser(text)
+
+
 def grammar_lines(text):
     """a printed simple grammar as the lines of GrammarText.tla"""
     out = []
@@ -162,6 +169,17 @@ def _events(src):
         K = U.keyword_named("nfa", N, random.Random(len(N.Q))) if src.get("kw") else None
         if K is not None:
             yield rt("nfa", K, ab.nfa, na.print_nfa, na.parse_nfa, src)
+    elif k == "pda_special":
+        # stack symbols the label syntax allows besides letters and digits: ~ ! @ # $ % ^ & *
+        rng = random.Random(src["seed"])
+        P, _ = U.random_pda(rng, rng.randint(1, 3), rng.choice(["a", "ab"]), rng.choice(["X%", "%#", "~&*", "$@", "!^X"]),
+                            ntrans=rng.randint(1, 5), eps=src.get("eps", "ε"), prefix=rng.choice(["s", "q"]))
+        yield rt("pda", P, ab.pda, pa.print_pda, pa.parse_pda, src)
+    elif k == "tm_special":
+        rng = random.Random(src["seed"])
+        T = U.random_tm(rng, rng.randint(1, 2), rng.choice(["a", "ab"]), rng.choice(["%", "#%", "~&", "$*", "!^@"]),
+                        rng.choice(["_", "□", "B"]), rng.choice([0.1, 0.4]))
+        yield rt("tm", T, ab.tm, ta.print_tm, ta.parse_tm, src)
     elif k.startswith("pda"):
         P = pdasrc.build(dict(src, eps=src.get("eps", "ε")))
         yield rt("pda", P, ab.pda, pa.print_pda, pa.parse_pda, src)
@@ -177,6 +195,12 @@ def _events(src):
     elif k == "re":
         r = c05.from_abs(src["re"])
         A = src["re"]
+        if src.get("after_errors"):
+            # history: texts both parsers have to reject (illegal characters, unbalanced brackets, dangling operators)
+            # are parsed first; a parser must not carry anything over from a rejected text into the next call
+            for bad in ("(a + b $", "a)b", "a + + b", "((", "a $ b", "*", "a . . b)", "#(a"):
+                for pbad in (parse_regexp, parse_simple_regexp):
+                    guarded(lambda: quiet_parse(pbad, bad), 10)
         multi = any(len(x) > 1 for x in c05._syms(A))
         for name, pr, pa_ in (("simple", R.print_regexp_simple, parse_simple_regexp), ("full", R.print_regexp, parse_regexp),
                               ("str", str, parse_regexp)):
@@ -221,7 +245,8 @@ def drive(task):
             yield from events(src)
     elif k == "rnd_pda":
         for i in range(task["count"]):
-            yield from events({"kind": "pda_rnd", "seed": task["seed"] * 100000 + i, "eps": PEPS[i % 3]})
+            yield from events({"kind": "pda_special" if i % 5 == 4 else "pda_rnd", "seed": task["seed"] * 100000 + i,
+                               "eps": PEPS[i % 3]})
     elif k == "tm":
         for code in range(task["lo"], task["hi"], task["stride"]):
             yield from events({"kind": "tm_code", "nwork": task["nwork"], "gamma": task["gamma"], "code": code})
@@ -229,18 +254,18 @@ def drive(task):
                                "sigma": ""})
     elif k == "rnd_tm":
         for i in range(task["count"]):
-            yield from events({"kind": "tm_rnd", "seed": task["seed"] * 100000 + i})
+            yield from events({"kind": "tm_special" if i % 5 == 4 else "tm_rnd", "seed": task["seed"] * 100000 + i})
     elif k == "re":
         for i, r in enumerate(U.all_regexps(task["ops"], c05.LEAVES)):
             if i % task["parts"] == task["part"]:
-                yield from events({"kind": "re", "re": ab.regexp(r)})
+                yield from events({"kind": "re", "re": ab.regexp(r), "after_errors": 1 if i % 5 == 2 else 0})
     elif k == "rnd_re":
         for i in range(task["count"]):
             syms = rng.choice(["ab", "abc", "a", "xyz", "01"])
             if i % 5 == 4:
                 syms = rng.choice([["ab", "a", "b"], ["q1", "q", "x_1"], ["aa", "a"], ["A", "Ab", "b"]])    # identifiers
             r = U.random_regexp(rng, rng.choice([2, 3, 4, 5, 6, 8]), syms)
-            yield from events({"kind": "re", "re": ab.regexp(r)})
+            yield from events({"kind": "re", "re": ab.regexp(r), "after_errors": 1 if i % 4 == 1 else 0})
     elif k == "cfg":
         for i, rules in enumerate(cfgsrc.small_grammars(3)):
             if i % task["parts"] == task["part"] and (i // task["parts"]) % task["stride"] == 0:
@@ -280,7 +305,9 @@ RULE = ("DFAs (DFA(3,{a,b}) under five naming schemes, random incl. empty alphab
         "random; epsilon in {U+03B5,_,e}), PDAs (2-state universe, hand-written, random), TMs (all 169 one-state "
         "machines also with empty input alphabet, random with blank in {_,U+25A1,B}), regular expressions (all trees "
         "<= 2 (3) operators, random; every fifth random tree with identifiers of 2-3 characters, in the two syntaxes that "
-        "have identifiers) in three syntaxes, simple-format grammars; print -> parse -> project; "
+        "have identifiers) in three syntaxes (every fourth / fifth after a series of texts both parsers must reject), "
+        "simple-format grammars (also with the glyph as an ordinary terminal), PDAs / TMs with the special characters the "
+        "label syntax allows as stack / tape symbols; print -> parse -> project; "
         "non-trivial = object has >= 2 transitions / operators / rules; distinct = distinct (kind, object)")
 
 
